@@ -51,7 +51,7 @@ func clean(key, val any) {
 	taskRunner.Schedule(func() {
 		dt := val.(delayTask)
 		err := dt.task()
-		if err != nil {
+		if err == nil {
 			return
 		}
 
